@@ -40,6 +40,8 @@ pub enum MutKind {
     SwapParent,
     // a bound field changed AND the command id recomputed from public data to fit it
     RePayload,
+    // payload re-encoded to different bytes that decode to the same field values (never signed)
+    ReencodePayload,
     ReKind,
     ReParent,
     ReAuthor,
@@ -77,6 +79,7 @@ pub const ALL_KINDS: &[MutKind] = &[
     MutKind::SwapId,
     MutKind::SwapParent,
     MutKind::RePayload,
+    MutKind::ReencodePayload,
     MutKind::ReKind,
     MutKind::ReParent,
     MutKind::ReAuthor,
@@ -424,6 +427,17 @@ pub fn apply(bytes: &mut Vec<u8>, m: &Mut, sh: &Shadow, devices: &[DeviceId], ke
                 }
             }
         }
+        MutKind::ReencodePayload => {
+            let Some(k) = signed_at(&d.cmds, i) else { return false };
+            let (mut v, trailing) = VmData::decode(&d.cmds[k].data).expect("signed_at checked");
+            let valid = reencodings(&v.kind, &v.serialized_fields);
+            if valid.is_empty() {
+                return false;
+            }
+            v.serialized_fields = valid[m.a as usize % valid.len()].clone();
+            d.cmds[k].data = v.encode(&trailing);
+            true
+        }
         MutKind::RePayload | MutKind::ReKind | MutKind::ReParent | MutKind::ReAuthor => {
             let Some(k) = signed_at(&d.cmds, i) else { return false };
             let (mut v, trailing) = VmData::decode(&d.cmds[k].data).expect("signed_at checked");
@@ -544,4 +558,36 @@ pub fn apply(bytes: &mut Vec<u8>, m: &Mut, sh: &Shadow, devices: &[DeviceId], ke
         *bytes = encode(&d);
     }
     ok
+}
+
+/// True when `a` and `b` are different byte strings that the policy machine decodes to the same
+/// struct of command `kind`.
+pub fn same_struct_other_bytes(kind: &str, a: &[u8], b: &[u8]) -> bool {
+    if a == b {
+        return false;
+    }
+    let Ok(name) = kind.parse::<aranya_policy_vm::ast::Identifier>() else { return false };
+    let m = crate::node::machine();
+    match (m.deserialize_struct(name.clone(), a), m.deserialize_struct(name, b)) {
+        (Ok(x), Ok(y)) => x == y,
+        _ => false,
+    }
+}
+
+/// Non-canonical encodings of `payload`: one byte `b < 0x80` replaced by the two-byte varint
+/// `[b | 0x80, 0x00]`, kept when the real struct decoder of the compiled policy accepts it and
+/// yields the same field values.
+pub fn reencodings(kind: &str, payload: &[u8]) -> Vec<Vec<u8>> {
+    let mut out = Vec::new();
+    for (i, b) in payload.iter().enumerate() {
+        if *b < 0x80 {
+            let mut c = payload[..i].to_vec();
+            c.extend_from_slice(&[*b | 0x80, 0x00]);
+            c.extend_from_slice(&payload[i + 1..]);
+            if same_struct_other_bytes(kind, payload, &c) {
+                out.push(c);
+            }
+        }
+    }
+    out
 }
